@@ -40,6 +40,7 @@ fn main() {
         "fulltest" => { let f = full::Full::new(true); println!("full world ok: {} accounts, digest {}", f.w.accounts.len(), f.w.digest()); }
         "variants" => { for (c, vs) in variants::all() { println!("{c}: {}", vs.join(" ")); } }
         "access" => suites::access::main(seed, first, runs, &out, kv.get("sched")),
+        "toggles" => suites::toggles::main(seed, first, runs, &out, kv.get("sched")),
         "math" => suites::math::main(seed, first, runs, ops, &out, kv.get("kind").map(|s| s.as_str()).unwrap_or("all")),
         _ => {
             eprintln!("unknown suite {suite}");
